@@ -14,10 +14,10 @@ def run(tier, seed):
     exe = dc.driver()
 
     # 1. the reference itself: invariants + action properties on every 2-call history over one-line files
-    mcc = dc.rc_consts(2, maxlines=1, flags=(7,), nl=(1,), conf=range(1, 37, 2), host=range(1, 16, 2), opt=range(1, 34, 2)) if q else \
+    mcc = dc.rc_consts(2, maxlines=1, flags=(7,), nl=(1,), conf=range(1, 39, 2), host=range(1, 20, 2), opt=range(1, 39, 2)) if q else \
         dc.rc_consts(2, maxlines=1, flags=(7, 1), nl=(1,))
     mc, res = dc.tlc_histories(chk, "ResolvConf", "C39_mc", mcc,
-                               invariants=INV[:2], properties=PROPS, coverage=True, workers=8, timeout=1200)
+                               invariants=INV[:2], properties=PROPS, coverage=True, workers=4, timeout=1200)
     chk.check_coverage(res, ["Conf", "ConfMissing", "Hosts", "HostsNull", "ClearHosts", "Opt"], "C39_mc")
 
     gens = [
@@ -27,7 +27,7 @@ def run(tier, seed):
         ("C39_exh_flags", dc.rc_consts(1, maxlines=1, flags=(1, 2, 4, 7, 23), nl=(0, 1), acts={"conf", "confmissing"}), None),
         # every pair of calls over a reduced alphabet (state carried from one call to the next)
         ("C39_exh_pairs", dc.rc_consts(2, maxlines=1, flags=(7,), nl=(1,),
-                                       conf=(1, 4, 11, 14, 17, 20, 22, 28), host=(1, 3, 6, 12), opt=(1, 8, 12, 16, 19, 24, 33)), None),
+                                       conf=(1, 4, 11, 14, 17, 20, 22, 28, 37), host=(1, 3, 6, 12, 16), opt=(1, 8, 12, 16, 19, 24, 33, 34)), None),
         # long random files and histories
         ("C39_rand", dc.rc_consts(3 if q else 4, maxlines=6 if q else 10, flags=(1, 2, 4, 7, 23), nl=(0, 1), rnd=True),
          12 if q else 150),
@@ -80,9 +80,9 @@ def run(tier, seed):
         if bad:
             chk.violation("C39_fuzz: " + bad, {"scenario": sc, "actual": o})
 
-    chk.cov["rule"] = ("TLC enumerates every resolv.conf / hosts file of the stated length over 36 / 15 line tokens (directives, "
+    chk.cov["rule"] = ("TLC enumerates every resolv.conf / hosts file of the stated length over 38 / 19 line tokens (directives, "
                        "options incl. bad and out-of-range values, comments, junk, 4 KiB lines), every set_option call of a table "
-                       "of 33, every pair of calls over a reduced alphabet, and simulates long random files; each history is "
+                       "of 38, every pair of calls over a reduced alphabet, and simulates long random files; each history is "
                        "replayed on the real evdns_base and after every call the return value, the nameserver set "
                        "(count/get_nameserver_addr) and the hosts table (evdns_getaddrinfo on 9 names) are compared; after the "
                        "last call the search list, ndots, attempts, timeout, max-inflight, randomize-case and edns-udp-size are "
